@@ -288,16 +288,16 @@ impl<F: PathFetcher> MultiPathManager<F> {
 
         match try_path {
             Some(active) => {
-                // XXX(ake): Since the Paths are actively managed, they should never be expired
-                // here.
                 let timestamp = now
                     .duration_since(SystemTime::UNIX_EPOCH)
                     .unwrap_or_default()
                     .as_secs() as u32;
 
-                let expired = active.is_expired(timestamp).unwrap_or(false);
-
-                debug_assert!(!expired, "Returned expired path from try_get_path");
+                // The active path is only replaced on maintenance ticks, so it can expire in
+                // between (e.g. while refetches keep failing). Never hand out an expired path.
+                if active.is_expired(timestamp).unwrap_or(false) {
+                    return None;
+                }
 
                 Some(active)
             }
@@ -374,10 +374,18 @@ impl<F: PathFetcher> MultiPathManager<F> {
                 .unwrap_or_default()
                 .as_secs() as u32;
 
-            // XXX(ake): Since the Paths are actively managed, they should never be expired
-            // here.
-            let expired = active.is_expired(timestamp).unwrap_or(false);
-            debug_assert!(!expired, "Returned expired path from get_path");
+            // The active path is only replaced on maintenance ticks, so it can expire in
+            // between (e.g. while refetches keep failing). Never hand out an expired path,
+            // report the last fetch error instead.
+            if active.is_expired(timestamp).unwrap_or(false) {
+                let last_error = self
+                    .0
+                    .managed_paths
+                    .peek_with(&(src, dst), |_, (handle, _)| handle.current_error())
+                    .flatten();
+
+                return Err(last_error.unwrap_or_else(|| Arc::new(PathFetchError::NoPathsFound)));
+            }
         }
 
         res
